@@ -302,4 +302,86 @@ example : closedForm exRows 1 = some [39/11] :=
     (by intro j hj; obtain rfl : j = 0 := by omega
         norm_num [estEq, hpsi, sumBy, snmCol, dW, nth, exRows, List.range_succ])
 
+/-! ### the H(psi) terms of the search solver (round 4)
+
+`_grid_search_` adds to the exposure model, for every term of the structural nested model, the term in which the
+treatment's name is replaced by the scratch column `H_psi` (`hTerm`, factor by factor).  `hterm_column`: whatever
+the POSITION of the treatment in the product (`A:V`, `V:A`) and whatever the other factors are CALLED (a modifier
+`AGE` beside the treatment `A`), the column patsy builds for the rewritten term is `H(psi)` times the value of the
+term's effect modifiers -- the columns `H·V_j` whose coefficients the search solver drives to zero, i.e. the
+estimating equations of the closed form (`snm_search_zero_is_closed_form`, Props/C15_Gen).  Hypotheses: the
+treatment occurs once in the term, and no column of the data is called like the scratch column. -/
+
+theorem hTerm_of_not_mem (treat h : Nat) (l : List Nat) (hn : treat ∉ l) : hTerm treat h l = l := by
+  induction l with
+  | nil => rfl
+  | cons f t ih =>
+    have hf : f ≠ treat := fun e => hn (by simp [e])
+    have ht : treat ∉ t := fun m => hn (List.mem_cons_of_mem _ m)
+    have := ih ht
+    simp only [hTerm, List.map_cons, if_neg hf] at this ⊢
+    rw [this]
+
+theorem termVal_envH_of_not_mem (env : Nat → F) (h : Nat) (H : F) (l : List Nat) (hn : h ∉ l) :
+    termVal (envH env h H) l = termVal env l := by
+  induction l with
+  | nil => rfl
+  | cons f t ih =>
+    have hf : f ≠ h := fun e => hn (by simp [e])
+    have ht : h ∉ t := fun m => hn (List.mem_cons_of_mem _ m)
+    have := ih ht
+    simp only [termVal, List.foldr_cons, envH, if_neg hf] at this ⊢
+    rw [this]
+
+/-- **hterm_column** — the column of the rewritten term is `H(psi)` × the term's effect modifiers, wherever the
+    treatment stands in the product and whatever the modifiers are called -/
+theorem hterm_column (env : Nat → F) (treat h : Nat) (H : F) (term : List Nat)
+    (hfresh : h ∉ term) (honce : term.count treat = 1) :
+    termVal (envH env h H) (hTerm treat h term) = H * termVal env (modifiers treat term) := by
+  induction term with
+  | nil => simp at honce
+  | cons f t ih =>
+    have hfh : f ≠ h := fun e => hfresh (by simp [e])
+    have hth : h ∉ t := fun m => hfresh (List.mem_cons_of_mem _ m)
+    by_cases hf : f = treat
+    · subst hf
+      have h0 : t.count f = 0 := by simpa [List.count_cons_self] using honce
+      have hnt : f ∉ t := List.count_eq_zero.mp h0
+      have e1 : hTerm f h (f :: t) = h :: t := by
+        have := hTerm_of_not_mem f h t hnt
+        simp only [hTerm, List.map_cons, if_true] at this ⊢
+        rw [this]
+      have e2 : modifiers f (f :: t) = t := by simp [modifiers]
+      rw [e1, e2]
+      have := termVal_envH_of_not_mem env h H t hth
+      simp only [termVal, List.foldr_cons, envH, if_true] at this ⊢
+      rw [this]
+    · have h1 : t.count treat = 1 := by
+        rw [List.count_cons_of_ne (fun e => hf e)] at honce; exact honce
+      have e1 : hTerm treat h (f :: t) = f :: hTerm treat h t := by simp [hTerm, hf]
+      have e2 : modifiers treat (f :: t) = f :: modifiers treat t := by
+        simp only [modifiers]; rw [List.erase_cons_tail]; simpa using hf
+      rw [e1, e2]
+      have := ih hth h1
+      simp only [termVal, List.foldr_cons, envH, if_neg hfh] at this ⊢
+      rw [this]; ring
+
+/-- **hterm_keeps_other_names** — a factor that is not the treatment is left as it is (in particular a modifier
+    whose name merely *contains* the treatment's name: names are compared whole) -/
+theorem hterm_keeps_other_names (treat h f : Nat) (term : List Nat) (hf : f ≠ treat) (hm : f ∈ term) :
+    f ∈ hTerm treat h term := by
+  simp only [hTerm, List.mem_map]
+  exact ⟨f, hm, by simp [hf]⟩
+
+/-- **hterm_position_free** — the rewritten term has the same factors whichever way the product is written -/
+theorem hterm_position_free (treat h : Nat) (t₁ t₂ : List Nat) (hp : t₁.Perm t₂) :
+    (hTerm treat h t₁).Perm (hTerm treat h t₂) := hp.map _
+
+/-- the hypotheses are met by `V:A` (treatment 1 written second, modifier 2, scratch column 9): the column is
+    `H · V`, the same as for `A:V` -/
+example : termVal (envH (fun n => if n = 2 then (7 : ℚ) else 0) 9 (5 : ℚ)) (hTerm 1 9 [2, 1]) = 5 * 7 ∧
+    termVal (envH (fun n => if n = 2 then (7 : ℚ) else 0) 9 (5 : ℚ)) (hTerm 1 9 [1, 2]) = 5 * 7 ∧
+    (9 ∉ [2, 1]) ∧ [2, 1].count 1 = 1 ∧ modifiers 1 [2, 1] = [2] := by
+  refine ⟨?_, ?_, by decide, by decide, by decide⟩ <;> norm_num [termVal, envH, hTerm]
+
 end ZV.P15
